@@ -415,7 +415,8 @@ class Emit:
     def gep(s, bty, base, idx):
         ity, i0 = idx[0]
         if re.fullmatch(r'\(\(u(8|16|32|64)\)0ULL\)', i0): e = base
-        else: e = '(%s + %s)' % (base, s.sx(ity, i0))
+        elif re.fullmatch(r'\(\(u(8|16|32|64)\)\d+ULL\)', i0): e = '(%s + %s)' % (base, s.sx(ity, i0))
+        else: e = '(%s ? %s + %s : %s)' % (i0, base, s.sx(ity, i0), base)   # p + 0 is defined even for a null p
         cur = bty
         if len(idx) == 1: return e, cur
         path = ''
@@ -1007,6 +1008,12 @@ def const_of(expr):
     mm = re.fullmatch(r'\(\(u64\)(\d+)ULL\)', expr)
     return int(mm.group(1)) if mm else None
 
+def unit_for(E, ety, cl):
+    """element type for a constant-length copy: the picked type if it divides the length, else the widest integer unit"""
+    if ety is not None and cl % E.sizeof(ety) == 0 and not isinstance(E.resolve(ety), (PtrTy,)): return ety
+    for b in (8, 4, 2, 1):
+        if cl % b == 0: return IntTy(b * 8)
+
 def lower_memcpy(ctx, kind, args, argtoks):
     E = ctx['E']
     d, s_, ln = args[0], args[1], args[2]
@@ -1015,24 +1022,41 @@ def lower_memcpy(ctx, kind, args, argtoks):
     if whole is not None:
         c = E.cty(whole); E.notes['memcpy->struct assignment'] += 1
         return '{ %s tmp_ = *(%s*)%s; *(%s*)%s = tmp_; }' % (c, c, s_, c, d)
-    if cl is not None and cl % E.sizeof(ety) != 0: ety = IntTy(8)
+    if cl is not None:
+        if cl == 0: return ';'
+        u = unit_for(E, ety, cl); k = cl // E.sizeof(u)
+        if k <= 32:
+            c = E.cty(u); E.notes['mem%s const->unrolled %s' % ('move' if kind == 'move' else 'cpy', c)] += 1
+            rd = ' '.join('%s t%d_ = ss_[%d];' % (c, i, i) for i in range(k)); wr = ' '.join('dd_[%d] = t%d_;' % (i, i) for i in range(k))
+            return '{ %s *dd_ = (%s*)%s; %s *ss_ = (%s*)%s; %s %s }' % (c, c, d, c, c, s_, rd, wr)
+        ety = u
     E.notes['mem%s->typed loop %s' % ('move' if kind == 'move' else 'cpy', E.cty(ety))] += 1
     return '%s((u8*)%s, (u8*)%s, %s);' % (E.copy_helper(kind, ety), d, s_, ln)
 
 def lower_memset(ctx, args, argtoks):
     E = ctx['E']
     d, bv, ln = args[0], args[1], args[2]
-    cl = const_of(ln)
+    cl = const_of(ln); zero = bv in ('((u8)0ULL)',)
     ety, whole = pick_elem(ctx, [argtoks[0]], cl)
-    if whole is not None and bv == '((u8)0ULL)':
-        c = E.cty(whole)
-        r = E.resolve(whole)
+    if whole is not None and zero:
+        c = E.cty(whole); r = E.resolve(whole)
         if isinstance(r, (IntTy, PtrTy, FloatTy)): return '*(%s*)%s = (%s)0;' % (c, d, c)
         return '*(%s*)%s = (%s){0};' % (c, d, c)
     if whole is not None: ety = element_of(E, whole) or IntTy(8)
-    if cl is not None and cl % E.sizeof(ety) != 0: ety = IntTy(8)
+    if cl is not None:
+        if cl == 0: return ';'
+        u = unit_for(E, ety, cl)
+        if not isinstance(E.resolve(u), IntTy) and not zero: u = unit_for(E, None, cl)
+        k = cl // E.sizeof(u)
+        if k <= 32:
+            c = E.cty(u); r = E.resolve(u); E.notes['memset const->unrolled %s' % c] += 1
+            if isinstance(r, IntTy):
+                rep = {1: '(u8)%s', 2: '(u16)((u16)%s * 0x0101u)', 4: '(u32)((u32)%s * 0x01010101u)', 8: '(u64)((u64)%s * 0x0101010101010101ULL)'}[E.sizeof(u)] % bv
+            else: rep = '(%s){0}' % c
+            return '{ %s *dd_ = (%s*)%s; %s }' % (c, c, d, ' '.join('dd_[%d] = %s;' % (i, rep) for i in range(k)))
+        ety = u
     r = E.resolve(ety)
-    if not isinstance(r, IntTy) and bv != '((u8)0ULL)': ety = IntTy(8)
+    if not isinstance(r, IntTy) and not zero: ety = IntTy(8)
     if isinstance(r, (PtrTy, FloatTy)): ety = IntTy(8)
     E.notes['memset->typed loop %s' % E.cty(ety)] += 1
     return '%s((u8*)%s, %s, %s);' % (E.copy_helper('set', ety), d, bv, ln)
